@@ -74,7 +74,7 @@ Proof. exact bary_pairs_is_map_single. Qed.
 Theorem C15_contains_iff_weights_nonneg : forall t p, nondegenerate t -> coplanar t p ->
   (tri_contains ROps (ta t) (tb t) (tc t) p = true <->
    0 <= vx (bary ROps t p) /\ 0 <= vy (bary ROps t p) /\ 0 <= vz (bary ROps t p)).
-Proof. intros t p H _. exact (contains_iff_weights_nonneg t p H). Qed.
+Proof. exact contains_iff_weights_nonneg_coplanar. Qed.
 (* the three edge tests are coplanar_points_are_on_same_side_of_line, which decides the sign of the product of
    the two cross products with the edge direction *)
 Theorem C15_contains_is_three_same_side : forall a b c p,
@@ -103,7 +103,7 @@ Theorem C15_sample_inside_named_face : forall ts weights us abs l p i,
   exists t, nth_error ts i = Some t /\ in_tri t p.
 Proof. exact sample_inside_named_face. Qed.
 Theorem C15_sample_empty : forall weights us abs, sample ROps [] weights us abs = Ok [].
-Proof. reflexivity. Qed.
+Proof. exact sample_empty. Qed.
 (* identical generator state = identical draws = identical output *)
 Theorem C15_sample_deterministic : forall ts weights us abs us' abs',
   us = us' -> abs = abs' -> sample ROps ts weights us abs = sample ROps ts weights us' abs'.
@@ -113,6 +113,16 @@ Proof. exact sample_deterministic. Qed.
 Theorem C15_sample_face_interval : forall ws u i, nonneg_weights ws -> 0 < Rsum ws -> 0 <= u < 1 ->
   (face_choice ROps ws u = i <-> (i < length ws)%nat /\ psum ws i <= u * Rsum ws < psum ws (S i)).
 Proof. exact sample_face_interval. Qed.
+(* the frequency clause as an interval statement: the draws u in [0,1) that select face i are exactly the interval
+   [a, b) with a = (w_0+...+w_{i-1})/T, b = a + w_i/T, which lies inside [0,1] and has length w_i/T; hence any two
+   draws that select the same face are less than w_i/T apart *)
+Theorem C15_sample_face_preimage : forall ws i w, nonneg_weights ws -> 0 < Rsum ws -> nth_error ws i = Some w ->
+  let T := Rsum ws in let a := psum ws i / T in let b := psum ws (S i) / T in
+  0 <= a /\ b <= 1 /\ b - a = w / T /\
+  (forall u, 0 <= u < 1 -> (face_choice ROps ws u = i <-> a <= u < b)) /\
+  (forall u1 u2, 0 <= u1 < 1 -> 0 <= u2 < 1 -> face_choice ROps ws u1 = i -> face_choice ROps ws u2 = i ->
+     Rabs (u1 - u2) < w / T).
+Proof. exact sample_face_preimage. Qed.
 Theorem C15_sample_never_zero_weight : forall ws u, nonneg_weights ws -> 0 < Rsum ws -> 0 <= u < 1 ->
   exists w, nth_error ws (face_choice ROps ws u) = Some w /\ 0 < w.
 Proof. exact sample_never_zero_weight. Qed.
@@ -124,7 +134,7 @@ Proof. exact area_weights_admissible. Qed.
    weights [0,1] and a draw of exactly 0; the repaired rule picks face 1 *)
 Theorem C15_left_rule_picks_zero_weight_face :
   (face_choice_left ROps [0; 1] 0 = 0%nat /\ nth_error [0; 1] 0%nat = Some 0) /\ face_choice ROps [0; 1] 0 = 1%nat.
-Proof. exact (conj left_rule_picks_zero_weight_face right_rule_on_that_input). Qed.
+Proof. exact left_and_right_rule. Qed.
 
 (* ---- quads_to_tris, edges_of_faces: any number of faces ------------------------------------------------------ *)
 (* quad i = (q0,q1,q2,q3) becomes triangles 2i = (q0,q1,q2) and 2i+1 = (q0,q2,q3): both in the quad's winding *)
@@ -148,7 +158,7 @@ Theorem C15_edges_each_once : forall (nz : bool) fs,
     nth_error (edges_of_faces nz fs) (3 * i) = Some (g (f0 f, f1 f)) /\
     nth_error (edges_of_faces nz fs) (3 * i + 1) = Some (g (f1 f, f2 f)) /\
     nth_error (edges_of_faces nz fs) (3 * i + 2) = Some (g (f2 f, f0 f)).
-Proof. intros nz fs. split; [apply edges_of_faces_length|]. intros i f H. exact (edges_each_once nz fs i f H). Qed.
+Proof. exact edges_each_once_all. Qed.
 Theorem C15_normalized_edge_is_sorted_same_edge : forall e,
   (fst (sort2 e) <= snd (sort2 e))%Z /\ (sort2 e = e \/ sort2 e = (snd e, fst e)).
 Proof. exact sort2_spec. Qed.
@@ -164,7 +174,8 @@ Definition C15_all := (C15_normal_is_cross, C15_normal_unit_is_normalized_cross,
   C15_stacked_is_map_single, C15_bary_sum_one, C15_bary_reconstructs_projection,
   C15_projection_is_orthogonal_projection, C15_bary_pairs_is_map_single, C15_contains_iff_weights_nonneg,
   C15_contains_is_three_same_side, C15_same_side_spec, C15_sample_count_and_rows, C15_sample_inside_named_face,
-  C15_sample_empty, C15_sample_deterministic, C15_sample_face_interval, C15_sample_never_zero_weight,
+  C15_sample_empty, C15_sample_deterministic, C15_sample_face_interval, C15_sample_face_preimage,
+  C15_sample_never_zero_weight,
   C15_area_weights_admissible, C15_left_rule_picks_zero_weight_face, C15_quads_to_tris_winding,
   C15_quad_split_area_vector, C15_edges_each_once, C15_normalized_edge_is_sorted_same_edge).
 Print Assumptions C15_all.
